@@ -60,7 +60,7 @@ func run(c config, hist []int, reuse bool) (*emitted, *vsched.Result) {
 		rbuf := make([]byte, 1500)
 		rtcpBuf := make([]byte, 1500)
 		var sent []uint16
-		wseq, rseq := uint16(1000), uint16(2000)
+		wseq, rseq := uint16(65534), uint16(65531) // the numbers wrap inside every history of three or more packets
 		for _, a := range hist {
 			switch a {
 			case 0, 1, 2, 10:
@@ -118,7 +118,7 @@ func run(c config, hist []int, reuse bool) (*emitted, *vsched.Result) {
 				}
 				readRTCP(s, raw, reuse, rtcpBuf)
 			case 6:
-				readRTCP(s, hk.RawTWCC(l1.Info.SSRC, 1001, 3, 1), reuse, rtcpBuf)
+				readRTCP(s, hk.RawTWCC(l1.Info.SSRC, 65535, 3, 1), reuse, rtcpBuf)
 			case 7:
 				pli := &rtcp.PictureLossIndication{SenderSSRC: 7, MediaSSRC: r1.Info.SSRC}
 				// RTCP packet objects are not among the buffers the property lets the caller reuse: not scribbled
